@@ -738,7 +738,9 @@ def spec_form(eng, node, fr):
         saved_locals = fr.locals
         eng.path.heap = dict(old)
         if getattr(fr, "old_locals", None) is not None:
-            fr.locals = dict(fr.old_locals)
+            # entry values of the parameters; ghost loop indices (_i0, _n0, ..) and bound variables stay visible
+            keep = {k: v for k, v in fr.locals.items() if k.startswith("_") or k not in fr.old_locals and isinstance(v, SV) and v.sort == INT and not isinstance(v.t, (int, bool)) and has_bvar(v.t)}
+            fr.locals = dict(fr.old_locals, **keep)
         try:
             return eng.eval(node.args[0], fr)
         finally:
